@@ -33,7 +33,7 @@ def shards(tier, seed):
 
 def floors(tier):
     return {"solves:in_process": 120, "solves:other_process": 120, "config:hybrid": 15, "config:evolutionary": 15, "config:n_emitter>1": 10,
-            "config:dm": 10, "hof:entries_checked": 150, "hof:updates_observed": 200, "generations:checked": 200, "aliasing:checks": 200, "config:seed_0": 3, "config:start_circuit_given": 8, "config:noise_map:hybrid": 5, "config:noise_map:evolutionary": 5}
+            "config:dm": 10, "hof:entries_checked": 150, "hof:updates_observed": 200, "generations:checked": 200, "aliasing:checks": 200, "config:seed_0": 3, "config:start_circuit_given": 8, "config:probabilistic_outcomes": 4, "config:noise_map:hybrid": 5, "config:noise_map:evolutionary": 5}
 
 
 def make_config(rng):
@@ -54,7 +54,7 @@ def make_config(rng):
             "tournament_k": int(rng.integers(0, 4)), "selection": bool(rng.integers(2)), "adaptive": bool(rng.integers(2)),
             "start_circuit": (not hybrid) and bool(rng.random() < 0.5),
             "noise": bool(rng.random() < 0.25),
-            "det": int(rng.integers(2)), "seed": int(rng.integers(100000)) if rng.random() > 0.2 else int(rng.integers(0, 2))}   # seeds 0 and 1 are common user choices
+            "det": int(rng.integers(2)) if rng.random() > 0.15 else "probabilistic", "seed": int(rng.integers(100000)) if rng.random() > 0.2 else int(rng.integers(0, 2))}   # seeds 0 and 1 are common user choices
 
 
 def _circ_sig(circ):
@@ -306,6 +306,11 @@ def check_config(cfg, ctx, m, mon, probe):
     s = solvers[0]
     if s.result is None or s.result[1] is None or not (s.result[0] == s.hof[0][0] and s.result[1] is s.hof[0][1]):
         ctx.violation("result_is_not_the_best_entry", case, {"result_score": None if s.result is None else float(s.result[0]), "best": float(s.hof[0][0])}, key="result_not_best")
+    if cfg["det"] == "probabilistic":
+        # the compilers' default setting: outcomes are drawn from the generators the solver seeds, so runs must still be
+        # reproducible (judged above); a stored score belongs to the branch drawn then and cannot be re-evaluated
+        ctx.count("config:probabilistic_outcomes")
+        return out[0]
     for rank, (score, c) in enumerate(s.hof):
         if c is None:
             continue
